@@ -557,6 +557,19 @@ func C16(r *h.Run) {
 					escaped := safely(func() { handler.ServeHTTP(httptest.NewRecorder(), req) })
 					in := map[string]any{"side": map[bool]string{false: "handler_unary", true: "handler_stream"}[stream], "options_in_declaration_order": desc, "handler_function_panics": ppos == n}
 					r.Eval("recover_position", fmt.Sprint(stream, n, rpos, ppos))
+					coqIcs := make([]string, n)
+					for j := range coqIcs {
+						switch j {
+						case rpos:
+							coqIcs[j] = "IRecover"
+						case ppos:
+							coqIcs[j] = "(IPanic (PVal tt))"
+						default:
+							coqIcs[j] = "IPass"
+						}
+					}
+					r.Case("recover_position", fmt.Sprintf("RecPosCase %s %s %d %s", h.CoqList(coqIcs), h.CoqBool(ppos == n), handled, h.CoqBool(escaped != nil)),
+						map[string]any{"in": in, "impl_recover_handler_calls": handled, "impl_panic_escaped": escaped != nil})
 					wantRecovered := ppos > rpos
 					if wantRecovered != (handled == 1 && escaped == nil) || (!wantRecovered && (handled != 0 || escaped == nil)) {
 						r.Fail(h.Failure{Key: "interceptors/recover-position", Family: "recover_position", What: "WithRecover does not sit at its declared position in the chain (it recovers exactly the panics of what is declared after it)", Input: in,
